@@ -5,7 +5,8 @@ Documentation (DataFrameSchema `unique`): "a list of columns that should be join
                  present in the frame: an absent column is check_column_presence's business)
     pandas: the reported rows are those `duplicated(subset, keep=convert_uniquesettings(report_duplicates))` marks
 For all frames (all lengths, values, nulls), every report_duplicates value, the groups None / ['a'] / ['a','b'] / [['a'],['b']] / ['a','z']
-(z absent from the frame).
+/ ['z'] / [['z'],['a']] (z absent from the frame: a group none of whose columns is present constrains nothing - the absent
+column is check_column_presence's business - and in particular must not make a library error escape).
 """
 import z3
 
@@ -19,7 +20,7 @@ from pyvc.theories import pandas_lite as PL
 from pyvc.theories import polars_lite as PP
 from pyvc.theories.pandas_lite import FrameVal
 
-GROUPS = {"none": None, "a": ["a"], "a+b": ["a", "b"], "a|b": [["a"], ["b"]], "a+absent": ["a", "z"]}
+GROUPS = {"none": None, "a": ["a"], "a+b": ["a", "b"], "a|b": [["a"], ["b"]], "a+absent": ["a", "z"], "absent_only": ["z"], "absent|a": [["z"], ["a"]]}
 RESHAPE = "pandera.backends.pandas.error_formatters:reshape_failure_cases"
 
 
@@ -63,11 +64,42 @@ class PandasJointUniqueness(Contract):
     def ensures(self, result, old, self_, check_obj, schema):
         u = schema.attrs["unique"]
         passed = result.attrs["passed"]
-        want = And(*[no_two_rows_agree(check_obj.sel, [check_obj.col_fn(c) for c in g if c in ("a", "b")]) for g in groups_of(u)]) if u else True
+        want = And(*[no_two_rows_agree(check_obj.sel, [check_obj.col_fn(c) for c in g if c in ("a", "b")]) for g in groups_of(u) if any(c in ("a", "b") for c in g)]) if u else True
         out = {"is_a_result": isinstance(result, Obj) and result.cls is CoreCheckResult, "verdict": Iff(passed, want)}
         if passed is not True:
             out["reason"] = Implies(Not(passed), result.attrs["reason_code"] is SchemaErrorReason.DUPLICATES)
         return out
+
+
+def _absent_group_probe(mod_name):
+    """a `unique` group none of whose columns is in the frame: nothing to compare, no library error may escape"""
+    import warnings
+
+    import pandas as pd
+    import polars as pl
+    import pandera as pa
+    import pandera.polars as pp
+
+    warnings.simplefilter("ignore")
+    mod, mk = (pa, pd.DataFrame) if mod_name == "pandas" else (pp, pl.DataFrame)
+    obs, bad = {}, False
+    for name, unique in (("unique=['x'] (x optional and absent)", ["x"]), ("unique=[['x'], ['z']]", [["x"], ["z"]])):
+        schema = mod.DataFrameSchema({"x": mod.Column(int, required=False), "z": mod.Column(int)}, unique=unique)
+        for data, want in (({"z": [1, 2, 3]}, "accept"), ({"z": [1, 1, 2]}, "accept" if unique == ["x"] else "reject")):
+            try:
+                schema.validate(mk(data))
+                got = "accept"
+            except (pa.errors.SchemaError, pa.errors.SchemaErrors):
+                got = "reject"
+            except Exception as e:  # noqa: BLE001
+                got = "leaked " + type(e).__name__
+            if got != want:
+                bad = True
+                obs[f"{mod_name}: {name} on {data}"] = f"{got}, expected {want}"
+    return bad, obs
+
+
+PandasJointUniqueness.concretize = lambda self, rec: (lambda: _absent_group_probe("pandas"))
 
 
 class PolarsJointUniqueness(Contract):
@@ -101,7 +133,7 @@ class PolarsJointUniqueness(Contract):
         lf = cur().ghost["lf"]
         u = schema.attrs["unique"]
         passed = result.attrs["passed"]
-        want = And(*[no_two_rows_agree(lf.sel, [lf.cols[c] for c in g if c in lf.cols]) for g in groups_of(u)]) if u else True
+        want = And(*[no_two_rows_agree(lf.sel, [lf.cols[c] for c in g if c in lf.cols]) for g in groups_of(u) if any(c in lf.cols for c in g)]) if u else True
         out = {"is_a_result": isinstance(result, Obj) and result.cls is CoreCheckResult, "verdict": Iff(passed, want)}
         if passed is not True:
             out["reason"] = Implies(Not(passed), result.attrs["reason_code"] is SchemaErrorReason.DUPLICATES)
@@ -115,7 +147,7 @@ class PolarsJointUniqueness(Contract):
             out["reports_a_row_aligned_check_output"] = ok
             if ok:
                 k, m = z3.Int(cur().fresh_name("k")), z3.Int(cur().fresh_name("m"))
-                groups = [[lf.cols[c] for c in g if c in lf.cols] for g in groups_of(u)]
+                groups = [[lf.cols[c] for c in g if c in lf.cols] for g in groups_of(u) if any(c in lf.cols for c in g)]
                 g0 = groups[0]  # (the first violated group is the one reported; with one group it is that group)
                 if len(groups) == 1:
                     same = [z3.Or(z3.And(c.null(k), c.null(m)), z3.And(z3.Not(c.null(k)), z3.Not(c.null(m)), core.as_z3_bool(py_eq(c.at(k), c.at(m))))) for c in g0]
@@ -159,7 +191,9 @@ class PolarsJointUniqueness(Contract):
             except Exception as e:  # noqa: BLE001
                 bad = True
                 obs["drop_invalid_rows with unique=['a'] on [1,1,2]"] = "raised " + type(e).__name__
-            return bad, obs or "joint uniqueness violations are reported through SchemaError / SchemaErrors"
+            b2, o2 = _absent_group_probe("polars")
+            obs.update(o2)
+            return bad or b2, obs or "joint uniqueness violations are reported through SchemaError / SchemaErrors"
 
         return thunk
 
